@@ -19,16 +19,20 @@ from .lib_db import NAMES, VERS, TAGS
 from .lib_dbref import fallbacks
 
 RULE = ("cases = histories of 4-14 commands of the C06 generator by users A and B (separate cache directories), "
-        "~12% of the mutating commands killed after their 1st-3rd Database mutation, ~8% cache-file deletions; after "
-        "every command each user runs a query process (Linux, sometimes generic) answering, through the cache and "
-        "through the files, 'is (n, v) declared / where / with which tags' for 3x3 (n, v), 'which version has tag t' "
-        "for 3x3 (n, t) and the listing of each product; a history is non-trivial when at least 3 commands change the "
-        "database and at least one query process accepted a cache and one rebuilt one; distinct = distinct digests")
+        "~12% of the mutating commands killed after their 1st-3rd Database mutation, ~8% cache events: a cache file of a "
+        "user or of the stack-wide cache inside ups_db/ deleted, `eups admin clearCache`, `eups admin buildCache -A` "
+        "(writes the stack-wide cache; the user's own caches go); after every command each user runs a query process "
+        "(Linux, sometimes generic) answering, through the cache and through the files, 'is (n, v) declared / where / "
+        "with which tags' for 3x3 (n, v), 'which version has tag t' for 3x3 (n, t) and the listing of each product; a "
+        "history is non-trivial when at least 3 commands change the database and at least one query process accepted "
+        "a cache and one rebuilt one; distinct = distinct digests")
 TRUSTED = ["fork-per-command runner, audit-log mtime normaliser, crash interposer of harness/lib_db.py",
            "pickle round-trips the cache object graph (exercised, not modelled)"]
 ASSUMPTIONS = ["commands do not interleave (C09 owns the locks); two events within one kernel timestamp tick are not "
                "exhibited: the harness renumbers modification times in the order of the audit log",
-               "the users share the database files and nothing else; all stacks writable; global tags only"]
+               "the users share the database files and the cache inside ups_db/, nothing else; all stacks writable; global "
+               "tags only; the stacks have no ups_db/global.tags, so `Eups(asAdmin=True)` ends with RuntimeError in "
+               "_loadServerTags after it has read or built the caches (reported as the outcome, the caches are checked)"]
 
 WORKERS = c06.WORKERS
 
